@@ -6,7 +6,7 @@
    variants incl. termination of the retry loops; the per-octet, counted and draining source-to-sink plumbing without and with an auxiliary
    buffer (what reached the sink is a prefix of the stream, a success moved exactly the requested octets in order, the calls return;
    at most the one octet - or the one scratch-buffer load - in flight is lost when the sink fails). *)
-From Ufw Require Import Base.Bits Base.Errno Model.Endpoints Proof.EndpointsLemmas Proof.EndpointsTotal Proof.EndpointsAux.
+From Ufw Require Import Base.Bits Base.Errno Model.Endpoints Proof.EndpointsLemmas Proof.EndpointsTotal Proof.EndpointsAux Model.ByteBuffer Model.BufEndpoints Proof.BufEndpointsLemmas.
 From Coq Require Import Lia.
 Local Open Scope N_scope.
 
@@ -193,6 +193,55 @@ Theorem C17_aux_drain_terminates :
   forall (s : src) (k : snk) (aux : list N), sts_drain_aux s k aux <> None.
 Proof. exact (@sts_drain_aux_total). Qed.
 Print Assumptions C17_aux_drain_terminates.
+
+(* the library's own drivers (endpoints/buffer.c), a byte buffer as source: reading N octets delivers exactly the next N unread octets and advances the read position by N; with fewer than N unread it delivers them all and reports end of data *)
+Theorem C17_buffer_source :
+  forall (b : bbuf) (n : N),
+         bb_inv b ->
+         1 <= n <= SSIZE_MAX ->
+         exists b' : bbuf,
+           buffer_get_chunk b n =
+           (if n <=? bb_rest b
+            then Some (DOk n, firstn (N.to_nat n) (bb_unread b), b')
+            else Some (DErr ENODATA, bb_unread b, b')) /\
+           bb_unread b' = skipn (N.to_nat (N.min n (bb_rest b))) (bb_unread b) /\
+           bb_mem b' = bb_mem b /\ bb_used b' = bb_used b /\ bb_size b' = bb_size b /\ bb_inv b'.
+Proof. exact (@buffer_get_chunk_spec). Qed.
+Print Assumptions C17_buffer_source.
+
+Theorem C17_buffer_source_invalid :
+  forall (b : bbuf) (n : N), n = 0 \/ SSIZE_MAX < n -> buffer_get_chunk b n = Some (DErr EINVAL, [], b).
+Proof. exact (@buffer_get_chunk_invalid). Qed.
+Print Assumptions C17_buffer_source_invalid.
+
+(* a chunk list as source: the unread octets of the chunks from the active one on, in order, across chunk borders and exhausted chunks *)
+Theorem C17_chunk_list_source :
+  forall (c : chunks) (n : N),
+         chunks_inv c ->
+         1 <= n <= SSIZE_MAX ->
+         exists c' : chunks,
+           chunks_get_chunk c n =
+           (if n <=? N.of_nat (length (chunks_unread c))
+            then Some (DOk n, firstn (N.to_nat n) (chunks_unread c), c')
+            else Some (DErr ENODATA, chunks_unread c, c')) /\
+           chunks_unread c' = skipn (N.to_nat n) (chunks_unread c) /\ chunks_inv c'.
+Proof. exact (@chunks_get_chunk_spec). Qed.
+Print Assumptions C17_chunk_list_source.
+
+(* a byte buffer as sink: N octets are appended exactly, or the call is refused with ENOMEM and the buffer is unchanged *)
+Theorem C17_buffer_sink :
+  forall (b : bbuf) (xs : list N) (n : N),
+         bb_inv b ->
+         1 <= n <= SSIZE_MAX ->
+         n <= N.of_nat (length xs) ->
+         n <= bb_avail b /\
+         (exists b' : bbuf,
+            buffer_put_chunk b xs n = Some (DOk n, b') /\
+            bb_filled b' = bb_filled b ++ firstn (N.to_nat n) xs /\
+            bb_offset b' = bb_offset b /\ bb_size b' = bb_size b /\ bb_inv b') \/
+         bb_avail b < n /\ buffer_put_chunk b xs n = Some (DErr ENOMEM, b).
+Proof. exact (@buffer_put_chunk_spec). Qed.
+Print Assumptions C17_buffer_sink.
 
 
 (* non-vacuity: a chunk driver that gives 2, then nothing, is interrupted, then gives the rest; a counted transfer into a sink that takes
